@@ -33,14 +33,14 @@ RULE = ("well-behaved prefix reaching a state class, then 3-30 lines each either
 REAL = ["aiomysensors.Gateway.listen", "MessageSchema", "all incoming handlers", "StreamTransport.read (stream kind)"]
 STUB = ["event loop (SimLoop)", "transport (SimTransport) / byte link (SimStreamTransport)"]
 ASSUMPTIONS = ["reference model is the oracle for the usability half"]
-SHRINK_LISTS = ("ops", "lines", "chunks")
-REQUIRED_PROBES = ["stream_noise_line", "mqtt_binary_payload", "stream_error_then_good_line", "absurd_battery", "absurd_heartbeat", "absurd_version", "short_line", "error_version_unknown",
+SHRINK_LISTS = ("ops", "lines", "chunks", "scn")
+REQUIRED_PROBES = ["race_subworld", "stream_noise_line", "mqtt_binary_payload", "stream_error_then_good_line", "absurd_battery", "absurd_heartbeat", "absurd_version", "short_line", "error_version_unknown",
                    "error_then_good_line", "unknown_internal_type", "read_error", "merged_lines"]
 ASPECTS = ("outcome", "registry", "yield", "decode")
 
 
 def budget(tier):
-    return 4000 if tier == "quick" else 250_000
+    return 12000 if tier == "quick" else 250_000
 
 
 def wall(tier):
@@ -96,6 +96,10 @@ def gen(seed: int, i: int, tier: str) -> dict:
         return gen_bytes(rng, i, "stream")
     if i % 10 == 9:
         return gen_bytes(rng, i, "mqtt")
+    if i % 10 == 7:
+        # controller state "a flush is in progress while the application sends": schedule sub-world shared with C09
+        from props import c09
+        return {"kind": "race", "scn": c09.gen(seed, i, tier)}
     proto = rng.choice(G.PROTOS)
     cfg = {"pin": proto if rng.random() < 0.6 else None}
     nodes = rng.sample([1, 2, 9, 100, 254], rng.randint(1, 3))
@@ -133,6 +137,21 @@ def gen(seed: int, i: int, tier: str) -> dict:
 def run(scn):
     if scn.get("kind") in ("stream", "mqtt"):
         return run_bytes(scn)
+    if scn.get("kind") == "race":
+        from props import c09
+        inner = c09.run(scn["scn"])
+        from vsim.core import RunResult
+        res = RunResult()
+        res.digest, res.vt, res.steps, res.ops = inner.digest, inner.vt, inner.steps, inner.ops
+        res.faults.update(inner.faults)
+        res.probes["race_subworld"] += 1
+        for v in inner.violations:
+            if v.oracle == "no-unexpected-exception" and not v.site.endswith(("TransportFailedError", "TransportError")):
+                res.violate(PROP, "only-library-errors", f"{v.site.split(':')[-1]}:during-concurrent-send", v.detail or v.site)
+            elif v.oracle == "quiescence":
+                res.violate(PROP, "returns-or-raises", "hang:during-concurrent-send", v.detail)
+        res.nontrivial_key = inner.nontrivial_key
+        return res
     st = {"fault_then_good": False, "last_fault": False}
 
     def on_step(i, op, obs, disc, model, w, res):
@@ -253,6 +272,7 @@ def run_bytes(scn):
                 if cfg["end"] == "eof":
                     peer.send_eof()
             else:
+                undelivered, undelivered_idx = set(), []
                 for b, tag in lines:
                     parts = b.split(b";")
                     # the MQTT path carries the payload as bytes and the five fields in the topic
@@ -262,7 +282,10 @@ def run_bytes(scn):
                         payload = b";".join(parts[5:])
                     else:
                         payload = b
-                    broker.inject(topic, payload)
+                    if not broker.inject(topic, payload):
+                        undelivered.add(len(undelivered_idx))
+                    undelivered_idx.append(1)
+                lines = [x for k, x in enumerate(lines) if k not in undelivered]
             last_err = False
             gen_ = gw.listen()
             for k, (b, tag) in enumerate(lines + ([(b"", "after-end")] if cfg["end"] != "none" and scn["kind"] == "stream" else [])):
